@@ -40,6 +40,12 @@ func Glob() {
 	npool := sym.ParamInt("pool", len(globPool))
 	setupProject("")
 	defer teardownProject()
+	// the project directory's own name may contain glob metacharacters: they are part of where the
+	// project is, not of any pattern (a seeded change joined directory and pattern into one
+	// pattern; every harness directory had a plain name, DESIGN.md 9.5)
+	if sym.ParamInt("oddroot", 0) == 1 && sym.Bool("odd_root") {
+		relocateRoot("p [v2]{x}")
+	}
 
 	var present []string // relative paths of the files in the tree
 	for k, raw := range globPool[:npool] {
